@@ -354,6 +354,40 @@ def sane_times(ctx, o, k, days):
     return out
 
 
+def orbit_pool(ctx, n, n_ecc):
+    """n real / generated near-circular element sets plus n_ecc eccentric near-earth ones (e 0.02 .. 0.35, perigee 300 .. 1500 km,
+    period < 220 min): on those the elements of one array call need different numbers of Newton steps."""
+    import tlegen
+    from pyorbital import orbital
+    out = orbits.make_orbitals(ctx, n)
+    ecc = []
+    for (_, a, b) in tlegen.REAL_TLES:
+        if int(b[26:33]) / 1e7 >= 0.02 and float(b[52:63]) >= 6.5:
+            ecc.append((a, b))
+    tries = 0
+    k = 0
+    while k < n_ecc and tries < 60 * n_ecc + 60:
+        tries += 1
+        if ecc:
+            a, b = ecc.pop(0)
+        else:
+            e = ctx.rng.uniform(0.03, 0.35)
+            a_km = (ctx.rng.uniform(300, 1500) + 6378.135) / (1 - e)
+            per = 2 * math.pi * math.sqrt(a_km ** 3 / 398600.8) / 60.0
+            if per >= 220:
+                continue
+            _, a, b = tlegen.random_tle(ctx.rng, "near", overrides={"ecc": "%07d" % int(e * 1e7), "mmotion": "%11.8f" % (1440.0 / per)})
+        try:
+            o = orbital.Orbital("x", line1=a, line2=b)
+            if not sane(o, o.tle.epoch.astype(dt.datetime)):
+                continue
+        except Exception:  # noqa  refusals are C13's subject
+            continue
+        out.append((a, b, o))
+        k += 1
+    return out
+
+
 def base_instant(ctx):
     """A seeded whole minute between 1990 and 2040 (representable in every unit)."""
     lo = int((dt.datetime(1990, 1, 1) - EPOCH70).total_seconds()) // 60
@@ -431,10 +465,10 @@ def correspond(ctx):
         ctx.count("eval_corr_joint_toy")
         if got != o:
             ctx.disagree("c08joint", {"mode": mode, "xs": xs}, got, o)
-    objs = orbits.make_orbitals(ctx, ctx.size(4, 12))
-    for k in range(ctx.size(12, 150)):
+    objs = orbit_pool(ctx, ctx.size(3, 8), ctx.size(5, 16))
+    for k in range(ctx.size(32, 400)):
         a_, b_, o = objs[k % len(objs)]
-        ts = sane_times(ctx, o, 5, 3.0)
+        ts = sane_times(ctx, o, 5, 2.0)
         if len(ts) < 5:
             continue
         tarr = np.array([np.datetime64(t) for t in ts])
@@ -705,7 +739,7 @@ def oracle(ctx):
                     ctx.violation(kind, dict({"check": "kind", "fn": fn, "time": tk, "coord": ck, "t0": t0.isoformat()}, **detail),
                                   obs, req, site="astronomy." + fn)
     # (2) one instant, every representation: bit-identical
-    objs = orbits.make_orbitals(ctx, ctx.size(4, 20))
+    objs = orbit_pool(ctx, ctx.size(4, 16), ctx.size(4, 16))
     for k in range(ctx.size(300, 8000)):
         a_, b_, o = objs[k % len(objs)]
         us_off = ctx.rng.randrange(-30 * 86400 * 10 ** 6, 30 * 86400 * 10 ** 6)
